@@ -128,6 +128,7 @@ def opcode_face(run):
             todo.append((short, name, an, k))
     run.repo.add_virtual_module("lemmas_opcodes", "\n".join(src))
     refusals = REFUSALS + ["AttributeError"]        # Inst.encode refers to an attribute the class does not have: a refusal
+    batch = []
     for short, name, an, kind in todo:
         key = f"lemmas_opcodes.enc_{short}#{kind or 'noarg'}"
         if kind is None:
@@ -142,7 +143,8 @@ def opcode_face(run):
         c.variant_of = f"lemmas_opcodes.enc_{short}"
         c.fn_override = ("lemmas_opcodes", None)
         eng.contracts[key] = c
-        run.verify(key)
+        batch.append(key)
+    run.verify_batch(batch)
 
 
 def bounded_companion(run):
